@@ -43,6 +43,7 @@ CLASSES = ["Base", "Mid", "Low", "Other", "WithMeta", "Marked", "MarkedF", "Virt
 
 def make_hierarchy():
     import abc
+    import typing
 
     class Tagged:
         def __init__(self, tag, v=None):
@@ -89,10 +90,21 @@ def make_hierarchy():
             self.v = v
     AbcB.register(Virt)
 
+    class Proto(typing.Protocol):
+        """a protocol class that is not runtime-checkable: issubclass(x, Proto) raises TypeError"""
+        def area(self) -> int: ...
+
+    class ProtoImpl(Proto):
+        def __init__(self, v=None):
+            self.v = v
+
+        def area(self):
+            return 1
+
     class Short(Base):
         """carries the registries' shortcut attributes"""
     return {"Tagged": Tagged, "Base": Base, "Mid": Mid, "Low": Low, "Other": Other, "MetaX": MetaX, "WithMeta": WithMeta,
-            "Marked": Marked, "MarkedF": MarkedF, "AbcB": AbcB, "Virt": Virt, "Short": Short, "MetaBase": MetaBase}
+            "Marked": Marked, "MarkedF": MarkedF, "AbcB": AbcB, "Virt": Virt, "Short": Short, "MetaBase": MetaBase, "Proto": Proto, "ProtoImpl": ProtoImpl}
 
 
 # ----------------------------------------------------------------------------- reference model
@@ -118,7 +130,13 @@ class RefRegistry:
         classes = [H[c] for c in spec.get("classes", [])]
         if classes:
             if spec.get("sub", True):
-                if not issubclass(H[t], tuple(classes)):
+                def is_sub(c, b):
+                    try:
+                        return issubclass(c, b)
+                    except TypeError:
+                        # a class that refuses the subclass test (a non-runtime protocol): the nominal relation
+                        return b in getattr(c, "__mro__", ())
+                if not any(is_sub(H[t], b) for b in classes):
                     return False
             elif H[t] not in classes:
                 return False
@@ -150,7 +168,7 @@ def gen_spec(rng):
     r = rng.random()
     spec = {"priority": rng.choice([-1, 0, 0, 0, 1, 2])}
     if r < 0.62:
-        spec["classes"] = rng.sample(["Base", "Mid", "Low", "Other", "Marked", "MarkedF", "AbcB", "Virt", "WithMeta"], rng.choice([1, 1, 2]))
+        spec["classes"] = rng.sample(["Base", "Mid", "Low", "Other", "Marked", "MarkedF", "AbcB", "Virt", "WithMeta", "Proto", "ProtoImpl"], rng.choice([1, 1, 2]))
         spec["sub"] = rng.random() < 0.7
         if rng.random() < 0.12:
             spec["attr"] = "__marker__"
@@ -173,7 +191,7 @@ def generate(rng, tier):
     declared = 0
     for _ in range(n):
         r = rng.random()
-        t = rng.choice(["Base", "Mid", "Low", "Other", "Marked", "MarkedF", "Virt", "WithMeta", "Short", "MetaBase"])
+        t = rng.choice(["Base", "Mid", "Low", "Other", "Marked", "MarkedF", "Virt", "WithMeta", "Short", "MetaBase", "ProtoImpl", "ProtoImpl"])
         if r < 0.38:
             tagn += 1
             op = {"op": "register", "spec": gen_spec(rng), "tag": "c%d" % tagn}
@@ -191,7 +209,7 @@ def generate(rng, tier):
                 ops.append({"op": "convert_field", "t": t})
             elif r < 0.92:
                 declared += 1
-                ops.append({"op": "declare", "t": t, "how": rng.choice(["list", "dictkey", "dictval", "opt", "dc"]) if t in ("WithMeta", "MetaBase") else rng.choice(["list", "rule", "dictkey", "dictval", "opt", "dc"]), "name": "D%d" % declared})
+                ops.append({"op": "declare", "t": t, "how": rng.choice(["list", "dictkey", "dictval", "opt", "dc"]) if t in ("WithMeta", "MetaBase", "ProtoImpl") else rng.choice(["list", "rule", "dictkey", "dictval", "opt", "dc"]), "name": "D%d" % declared})
             elif declared:
                 ops.append({"op": "convert_declared", "name": "D%d" % rng.randint(1, declared)})
             else:
